@@ -50,7 +50,9 @@ VOCAB = ['Files: *', 'Copyright: 2001 Foo', 'License: GPL-2+', 'License:', 'Lice
          'License-1: a', 'Files-1-1: q', 'Extra-Data: x', 'Line-Numbers-By-Field: y', 'X_Foo: bar', '2a: b', ':', 'a:b:c', 'İx: 1', 'Kelvin: k', 'a b', 'p\x0cq',
          '　 ideographic', '\x0b', 'tab\tinside', 'Upstream-Name: n', 'Upstream-Contact: a\n b', 'Files-Excluded: a b', 'Disclaimer: d', 'Format-Specification: f',
          '# package was debianized by', '#', '#x: y', ' # indented hash', 'Upstream-Contact: John Doe <john@example.org>, Jane Roe <jane@example.org>', 'Upstream-Contact: "Doe, John" <jd@x.org> (remark)',
-         ' Jane <jane@x.org> ,', 'Upstream-Contact: unclosed <a@b', 'Unknown-a:x', 'Unknown-b:y z', 'unknown:w', 'Comment:nospace']
+         ' Jane <jane@x.org> ,', 'Upstream-Contact: unclosed <a@b', 'Unknown-a:x', 'Unknown-b:y z', 'unknown:w', 'Comment:nospace',
+         'Licen\u017fe: MIT', '\u017fource: x', 'X-\u212a-\u0131: v', ' #!/bin/sh', ' # configure first', '\t#tab hash', 'Description: #hash first',
+         'Copyright: \u00b2 Foo Inc.', ' \u2460 Baz', 'Copyright: 2\u2070\u00b9\u2079 Foo', 'Copyright: \u0662\u0660\u0662\u0660 Foo', 'Copyright: 0 Foo', ' 999 Bar', 'Copyright: \u00bd Foo']
 
 
 def random_text(rng, max_lines=12):
